@@ -613,39 +613,176 @@ func init() {
 		},
 	})
 	register(&Rule{
-		Name: "slot-released-with-the-reset", Props: []string{"C18"}, Engine: "AST", Floor: 2,
-		Doc: "the client counts a stream it resets as closed only once the RST_STREAM is on the wire: until then the server still counts it against SETTINGS_MAX_CONCURRENT_STREAMS, and a new stream opened in between exceeds the limit",
+		Name: "slot-released-with-the-reset", Props: []string{"C18"}, Engine: "AST", Floor: 5,
+		Doc: "the client gives a stream's slot back only behind the RST_STREAM that ends it: in every function that both queues a reset (cancelStream) and frees the slot (decrements openStreams, or calls finish, which does), every reset is queued before the slot is freed; and the write loop writes what is queued before it writes a new request, so a request admitted on the freed slot reaches the server after the reset. Until the server has the reset it counts the stream against SETTINGS_MAX_CONCURRENT_STREAMS",
 		Run: func(p *Prog, r *Out) {
-			for _, fn := range []string{"(*Conn).cancel", "(*Conn).finish"} {
-				fd := p.decl(fn)
-				if fd == nil {
-					r.undecided(fn, "?", "no longer resolves")
+			n := 0
+			var names []string
+			for name := range p.funcDecls {
+				names = append(names, name)
+			}
+			sortStrings(names)
+			for _, fn := range names {
+				fd := p.funcDecls[fn]
+				if fd.Body == nil || !strings.HasPrefix(fn, "(*Conn).") {
 					continue
 				}
-				r.fn(fn)
-				decAt, rstAt := token.NoPos, token.NoPos
-				ast.Inspect(fd.Body, func(n ast.Node) bool {
-					c, ok := n.(*ast.CallExpr)
+				var frees, resets []token.Pos
+				ast.Inspect(fd.Body, func(nd ast.Node) bool {
+					c, ok := nd.(*ast.CallExpr)
 					if !ok {
 						return true
 					}
-					if p.calleeOf(c) == "atomic.AddInt32" && squash(p.text(c.Args[0])) == "&c.openStreams" {
-						decAt = c.Pos()
-					}
-					if p.calleeOf(c) == "(*Conn).cancelStream" {
-						rstAt = c.Pos()
+					switch p.calleeOf(c) {
+					case "atomic.AddInt32":
+						if squash(p.text(c.Args[0])) == "&c.openStreams" {
+							if v, ok := p.intConst(c.Args[1]); ok && v < 0 {
+								frees = append(frees, c.Pos())
+							}
+						}
+					case "(*Conn).finish":
+						if fn != "(*Conn).finish" {
+							frees = append(frees, c.Pos())
+						}
+					case "(*Conn).cancelStream":
+						resets = append(resets, c.Pos())
 					}
 					return true
 				})
-				if !rstAt.IsValid() {
-					r.ok(fn+" releases the slot no earlier than its RST_STREAM is written", p.pos(fd.Pos()), "sends no RST_STREAM")
+				if len(frees) == 0 || len(resets) == 0 {
 					continue
 				}
-				r.check(!decAt.IsValid(), fn+" releases the slot no earlier than its RST_STREAM is written", p.pos(fd.Pos()), "the slot is released by the write loop when the reset goes out",
-					fn+" decrements openStreams and then queues the RST_STREAM: the write loop picks between the queue of outgoing frames and the queue of new requests at random, so HEADERS for a new stream can reach the server while it still counts the reset one")
+				n++
+				r.fn(fn)
+				// in source order within one function: the branches that free come after the ones that reset
+				ok := true
+				for _, rs := range resets {
+					after := false
+					for _, fr := range frees {
+						if fr > rs {
+							after = true
+						}
+					}
+					// a reset with a free before it and none after it came too late
+					for _, fr := range frees {
+						if fr < rs && !after {
+							ok = false
+						}
+					}
+					for _, fr := range frees {
+						if fr < rs {
+							// a free that precedes this reset must belong to a branch that returned (the success path of dispatch)
+							pm := p.pmFor(fd)
+							returned := false
+							for nd := nodeAt(fd, fr); nd != nil; nd = pm[nd] {
+								if blk, isB := nd.(*ast.BlockStmt); isB && len(blk.List) > 0 {
+									if _, isRet := blk.List[len(blk.List)-1].(*ast.ReturnStmt); isRet && blk.End() < rs {
+										returned = true
+									}
+								}
+							}
+							if !returned {
+								ok = false
+							}
+						}
+					}
+				}
+				r.check(ok, fn+" queues its RST_STREAM before it frees the slot", p.pos(fd.Pos()), "cancelStream precedes the openStreams decrement / finish on the path that does both",
+					fn+" frees the stream's slot and then queues the RST_STREAM: a request admitted on that slot can be written before the reset, and the server sees more streams than it allows")
+			}
+			if n < 3 {
+				r.bad("functions that reset and free", "?", fmt.Sprintf("only %d found (cancel, finish, dispatch expected)", n))
+			}
+			// the write loop: what is queued goes before a new request
+			if fd := p.decl("(*Conn).runWriteLoop"); fd != nil {
+				r.fn("(*Conn).runWriteLoop", "(*Conn).flushOut")
+				okArm := false
+				ast.Inspect(fd.Body, func(nd ast.Node) bool {
+					cc, ok := nd.(*ast.CommClause)
+					if !ok || cc.Comm == nil || !strings.Contains(squash(p.text(cc.Comm)), "<-c.in") {
+						return true
+					}
+					fl, wr := token.NoPos, token.NoPos
+					for _, st := range cc.Body {
+						inspectCalls(st, func(c *ast.CallExpr) {
+							switch p.calleeOf(c) {
+							case "(*Conn).flushOut":
+								if !fl.IsValid() {
+									fl = c.Pos()
+								}
+							case "(*Conn).writeRequest":
+								wr = c.Pos()
+							}
+						})
+					}
+					okArm = fl.IsValid() && wr.IsValid() && fl < wr
+					return true
+				})
+				r.check(okArm, "the write loop writes what is queued before a new request", p.pos(fd.Pos()), "case ctx := <-c.in: flushOut() before writeRequest(ctx)", "the write loop no longer empties the queue of outgoing frames before it writes a request: select picks between the two queues at random, so HEADERS on a freed slot can overtake the RST_STREAM that freed it")
+			}
+			if fd := p.decl("(*Conn).flushOut"); fd != nil {
+				okF := false
+				if len(fd.Body.List) == 1 {
+					if fs, ok := fd.Body.List[0].(*ast.ForStmt); ok && fs.Cond == nil && len(fs.Body.List) == 1 {
+						if sel, ok := fs.Body.List[0].(*ast.SelectStmt); ok && len(sel.Body.List) == 2 {
+							recv, def := false, false
+							for _, cl := range sel.Body.List {
+								cc := cl.(*ast.CommClause)
+								if cc.Comm == nil {
+									if res := firstReturn(&ast.BlockStmt{List: cc.Body}); len(cc.Body) == 1 && len(res) == 1 && p.text(res[0]) == "nil" {
+										def = true
+									}
+									continue
+								}
+								if squash(p.text(cc.Comm)) == "fr:=<-c.out" {
+									wrote := false
+									for _, st := range cc.Body {
+										inspectCalls(st, func(c *ast.CallExpr) {
+											if p.calleeOf(c) == "(*Conn).writeFrame" && len(c.Args) == 1 && p.text(c.Args[0]) == "fr" {
+												wrote = true
+											}
+										})
+									}
+									// it leaves the loop early only with a write error
+									early := false
+									for _, st := range cc.Body {
+										if _, isRet := st.(*ast.ReturnStmt); isRet {
+											early = true
+										}
+										if ifs, isIf := st.(*ast.IfStmt); isIf && squash(p.text(ifs.Cond)) != "err!=nil" {
+											ast.Inspect(ifs, func(x ast.Node) bool {
+												if _, isRet := x.(*ast.ReturnStmt); isRet {
+													early = true
+												}
+												return true
+											})
+										}
+									}
+									recv = wrote && !early
+								}
+							}
+							okF = recv && def
+						}
+					}
+				}
+				r.check(okF, "flushOut writes every frame that is queued and stops when none is", p.pos(fd.Pos()), "for { select { case fr := <-c.out: writeFrame(fr)...; default: return nil } }", "flushOut no longer writes each queued frame until the queue is empty")
+			} else {
+				r.bad("flushOut writes every frame that is queued and stops when none is", "?", "(*Conn).flushOut no longer resolves")
 			}
 		},
 	})
+}
+
+// nodeAt finds the innermost node of fd that starts at pos.
+func nodeAt(fd *ast.FuncDecl, pos token.Pos) ast.Node {
+	var found ast.Node
+	ast.Inspect(fd, func(n ast.Node) bool {
+		if n != nil && n.Pos() == pos {
+			found = n
+		}
+		return true
+	})
+	return found
 }
 
 func init() {
@@ -679,7 +816,7 @@ func init() {
 					}
 				}
 				dp, rs := idx("c.deletePending(id)"), idx("c.cancelStream(id, StreamCanceled)")
-				r.check(guard >= 0 && dp > guard && slot > guard && rs > guard && rs > slot, "cancel lets go of everything the request held", p.pos(fd.Pos()), "id == 0 -> return; deletePending; if takeReq { openStreams-- }; RST_STREAM(CANCEL)", "cancel no longer refuses stream 0, drops the pending body, gives the slot back exactly when it took the request off the table, and resets the stream: a timed-out request keeps its slot (the connection fills up), its body (sent after the caller has its buffer back), or its stream on the server")
+				r.check(guard >= 0 && dp > guard && rs > dp && slot > rs, "cancel lets go of everything the request held", p.pos(fd.Pos()), "id == 0 -> return; deletePending; RST_STREAM(CANCEL); if takeReq { openStreams-- }", "cancel no longer refuses stream 0, drops the pending body, gives the slot back exactly when it took the request off the table, and resets the stream: a timed-out request keeps its slot (the connection fills up), its body (sent after the caller has its buffer back), or its stream on the server")
 			}
 			if fd := p.decl("(*Conn).runWriteLoop"); fd != nil {
 				okT := false
